@@ -99,6 +99,7 @@ TYPE_NAMES = {
 }
 
 BUILTIN_FUNCS = {
+    "object",
     "len",
     "isinstance",
     "hasattr",
@@ -248,6 +249,8 @@ class Builtins:
             return self.class_attr(st, ca[0], name, ca[1])
         if name == "__name__":
             return [Res(st, VStr(v.name))]
+        if name == "__new__":
+            return [Res(st, VBuiltin("class.__new__", v))]
         return self.X.raise_(st, "AttributeError", f"{v.name}.{name}")
 
     def module_getattr(self, st, v, name):
@@ -261,6 +264,11 @@ class Builtins:
     def value_getattr(self, st, v, name):
         if isinstance(v, VOpq) and v.tag == "function" and name == "__name__":
             return [Res(st, VStr(z3.Function("fn_name", core.Opq, core.StrS)(v.t)))]
+        if isinstance(v, VOpq) and v.tag == "function" and name in ("__defaults__", "__closure__", "__globals__"):
+            f = z3.Function("attr_" + name, core.Opq, core.Opq)
+            return [Res(st, VOpq(f(v.t), "attr:" + name))]
+        if isinstance(v, VOpq) and v.tag == "attr:__code__" and name == "co_names":
+            return [Res(st, VOpq(z3.Function("attr_co_names", core.Opq, core.Opq)(v.t), "attr:co_names"))]
         if isinstance(v, VOpq) and v.tag in ("function", "attr:__code__") and name in ("__code__", "co_code", "func_code", "__name__"):
             if name == "func_code":
                 return self.X.raise_(st, "AttributeError", "func_code")
@@ -941,6 +949,14 @@ class Builtins:
 
     def delitem(self, st, a, i):
         X = self.X
+        if isinstance(a, VBuiltin) and a.name == "inst.__dict__":
+            o = st.obj(a.self_v)
+            pk = self.pykey(i)
+            if pk in o.fields:
+                st.set_obj(a.self_v, o.without_field(pk))
+                st.events.append(("delattr", a.self_v.oid, pk))
+                return [Res(st, NONE)]
+            return X.raise_(st, "KeyError", "del __dict__")
         if isinstance(a, VObj):
             o = st.obj(a)
             if isinstance(o, CDict):
@@ -1134,6 +1150,11 @@ class Builtins:
         m = getattr(self, "bi_" + n.replace(".", "_"), None)
         if m is not None:
             return m(st, fv, args, kwargs)
+        if n == "class.__new__":
+            c = args[0]
+            if not isinstance(c, VClass):
+                raise Unsupported("__new__ of a non-class")
+            return [Res(st, st.alloc(Inst(c.name, {})))]
         if n.startswith("exc."):
             return [Res(st, VBuiltin(n))]
         if n.startswith("child."):
@@ -1321,6 +1342,13 @@ class Builtins:
 
             if not args and not kw:
                 return [Res(st, st.alloc(CDict({})))]
+            if args and isinstance(args[0], VBuiltin) and args[0].name == "inst.__dict__":
+                o = st.obj(args[0].self_v)
+                d = dict(o.fields)
+                d.update(kw)
+                return [Res(st, st.alloc(CDict(d)))]
+            if args and isinstance(args[0], VOpq):
+                return [Res(st, VOpq(z3.Function("dict_of", args[0].t.sort(), core.Opq)(args[0].t), "opaque-dict"))]
             if args:
                 return loops.make_dict(X, st, args[0], kw)
             return [Res(st, st.alloc(CDict(kw)))]
@@ -1443,6 +1471,45 @@ class Builtins:
             return [Res(st, VClass(st.obj(v).cls))]
         raise Unsupported("type()")
 
+    def bi_globals(self, st, fv, args, kw):
+        return [Res(st, VOpq(z3.Const("module_globals", core.Opq), "opaque-dict"))]
+
+    def bi_marshal_dumps(self, st, fv, args, kw):
+        # assumed: marshal.loads(marshal.dumps(code)) == code
+        return [Res(st, VOpq(args[0].t, "marshalled:" + args[0].tag))]
+
+    def bi_marshal_loads(self, st, fv, args, kw):
+        a = args[0]
+        if isinstance(a, VOpq) and a.tag.startswith("marshalled:"):
+            return [Res(st, VOpq(a.t, a.tag[len("marshalled:"):]))]
+        raise Unsupported("marshal.loads of a non-marshalled value")
+
+    def bi_types_FunctionType(self, st, fv, args, kw):
+        """assumed: types.FunctionType(code, globals, name, defaults, closure) rebuilds a function that is
+        determined by (code, name, defaults, closure); rebuilt from a function's own four attributes it is
+        that function (as far as A-USERFN is concerned)"""
+        vals = list(args) + [NONE] * (5 - len(args))
+        code, g, name, defaults, closure = vals[:5]
+        if "name" in kw:
+            name = kw["name"]
+        if "argdefs" in kw:
+            defaults = kw["argdefs"]
+        if "closure" in kw:
+            closure = kw["closure"]
+
+        def opq(v):
+            if isinstance(v, VOpq):
+                return v.t
+            if isinstance(v, VNone):
+                return z3.Const("py:None", core.Opq)
+            if isinstance(v, VStr):
+                return z3.Function("opq_of_str", core.StrS, core.Opq)(v.t)
+            raise Unsupported(f"FunctionType argument {v!r}")
+
+        mk = z3.Function("mkfn", core.Opq, core.Opq, core.Opq, core.Opq, core.Opq)
+        t = mk(opq(code), opq(name), opq(defaults), opq(closure))
+        return [Res(st, VOpq(t, "function"))]
+
     def bi_id(self, st, fv, args, kw):
         raise Unsupported("id()")
 
@@ -1495,6 +1562,8 @@ class Builtins:
         X = self.X
         if isinstance(selfv, VStr):
             if name in ("startswith", "endswith"):
+                if selfv.py is not None and isinstance(args[0], VStr) and args[0].py is not None:
+                    return [Res(st, VBool(getattr(selfv.py, name)(args[0].py)))]
                 return [Res(st, VBool(st.fresh("str." + name, z3.BoolSort())))]
             if name == "format":
                 return [Res(st, VStr(st.fresh("strfmt", core.StrS)))]
